@@ -632,3 +632,22 @@ func (g *Gen) fieldType(st *types.Struct, name string) types.Type {
 	}
 	return types.Typ[types.Int]
 }
+
+// declaresGhost: the contract introduces a ghost of that name (`at site set x = e` or `ghost x = e at site`).
+func (fc *FuncContract) declaresGhost(name string) bool {
+	for _, sls := range fc.atSet {
+		for _, sl := range sls {
+			if i := strings.Index(sl.text, "="); i > 0 {
+				if strings.TrimSuffix(strings.TrimSpace(sl.text[:i]), ":bool") == name {
+					return true
+				}
+			}
+		}
+	}
+	for _, gl := range fc.ghost {
+		if n, _, _, ok := splitGhost(gl.text); ok && n == name {
+			return true
+		}
+	}
+	return false
+}
